@@ -19,7 +19,7 @@ declaration around the declarator (specifiers, initializers, several declarators
 namespace PycModel.C03
 open PycModel PycModel.Spec
 
-variable {ty : String → Bool}
+variable {env : Env}
 
 theorem denote_go (acc : Declarator) (ds : List Deriv) :
     denote (ofDerivs.go acc ds) = denote acc ++ ds := by
@@ -70,8 +70,8 @@ state that sees its tokens followed by something that is no further suffix,
 `_parse_declarator_kind` returns the modifier chain `d.chain` around the `TypeDecl` carrying the
 name, and consumes exactly the tokens of `d`.  Nothing is assumed about the parser. -/
 theorem declarators_are_read_inside_out (d : D) (hwf : WFD d) (s : PState) (rest : List Tk)
-    (hs : SeesT ty s (d.flat ++ rest)) (hfo : FollowD rest) (F : Nat) (hF : d.fuel ≤ F) :
-    ∃ s', run F (.declaratorKind .id true) s = .ok (chainVal (d.chain s.idx) (d.td s.idx)) s' ∧ SeesT ty s' rest ∧
+    (hs : SeesT env s (d.flat ++ rest)) (hfo : FollowD rest) (F : Nat) (hF : d.fuel ≤ F) :
+    ∃ s', run F (.declaratorKind .id true) s = .ok (chainVal (d.chain s.idx) (d.td s.idx)) s' ∧ SeesT env s' rest ∧
       s'.idx = s.idx + d.ntoks :=
   parse_declarator d hwf s rest hs hfo F hF
 
@@ -148,7 +148,7 @@ example : ∃ s',
                 mk .FuncDecl (tc 4) [.none,
                   mk .PtrDecl (tc 0) [.list [.str "const"],
                     mk .TypeDecl (tc 4) [.str "a", .none, .none, .none]]]],
-              mk .Constant (tc 6) [.str "int", .str "3"], .list []]) s' ∧ SeesT (fun _ => false) s' [("SEMI", ";")] := by
+              mk .Constant (tc 6) [.str "int", .str "3"], .list []]) s' ∧ (∃ env, SeesT env s' [("SEMI", ";")]) := by
   let d : D := .ptr [[("CONST", "const")]] (.fn0 (.paren (.ptr [[]] (.arr (.name "a") (some (.const "INT_CONST_DEC" "3" "int"))))))
   have hwf : WFD d := by
     refine .ptr _ _ (by simp) (by decide) (.fn0 _ (.paren _ (.ptr _ _ (by simp) (by simp) (.arr _ _ (.name _) rfl ?_) rfl)) rfl) rfl
@@ -157,6 +157,6 @@ example : ∃ s',
     ("INT_CONST_DEC", "3"), ("RBRACKET", "]"), ("RPAREN", ")"), ("LPAREN", "("), ("RPAREN", ")"), ("SEMI", ";")]
   obtain ⟨s', hr, hs', _⟩ := parse_declarator d hwf _ [("SEMI", ";")] hs
     (by intro k v r h; cases h; exact ⟨by decide, by decide⟩) 100 (by decide)
-  exact ⟨s', hr, hs'⟩
+  exact ⟨s', hr, _, hs'⟩
 
 end PycModel.C03
